@@ -222,7 +222,7 @@ def finish(prop, tier, seed, mod, results, wall, a):
             seen.add(key)
     # a known finding that no longer reproduces is reported (not an error): the defect may have been fixed
     for k in known:
-        if k.get("status", "known") == "known" and not any(kk is k for kk, _ in known_hits):
+        if k.get("status", "known") == "known" and not any(kk is k for kk, _ in known_hits) and not a.only:
             print(f"NOTE: known finding no longer reproduces: property={prop} {k['what']}")
     for o in violations:
         rp = o.get("replay") or {}
